@@ -27,6 +27,10 @@ InitSnap(cfg) == [EmptySnap EXCEPT !.fq = [k \in 1..cfg.nkeys |-> 0]]
 KeysIn(res) == {res[i].k : i \in DOMAIN res}
 Ent(res, k) == res[CHOOSE i \in DOMAIN res : res[i].k = k]
 SumW(res) == SeqSum([i \in DOMAIN res |-> res[i].w])
+\* w is the weight the implementation has stored for the entry, tw the weight of the value it
+\* holds now (the weigher applied to it): "current weights" in C04 / C10 are the latter
+TW(r) == IF "tw" \in DOMAIN r THEN r.tw ELSE r.w
+SumTW(res) == SeqSum([i \in DOMAIN res |-> TW(res[i])])
 HasF(r, f) == f \in DOMAIN r
 Quiescent(snap) == snap.rlen = 0 /\ snap.wlen = 0
 
@@ -85,6 +89,7 @@ LiveWeight(hs, now) ==
     SetSum({k \in HKeys(hs) : RefMaybe(hs, k, now)}, [k \in HKeys(hs) |-> hs.last[k].w])
 
 ExcessOf(hs, snap) == IF hs.cfg.cap = None THEN 0 ELSE SatSub(SumW(snap.res), hs.cfg.cap)
+ExcessT(hs, snap) == IF hs.cfg.cap = None THEN 0 ELSE SatSub(SumTW(snap.res), hs.cfg.cap)
 
 IsLookupHit(e) == (e.ev = "Get" /\ e.r # None) \/ (e.ev = "Contains" /\ e.r = TRUE)
 HasPrelude(hs, e) == ~IsSync(hs) /\ e.ev \in {"Get", "Contains", "Insert", "Invalidate"}
@@ -248,10 +253,10 @@ FreshOversize(hs, pre, e) ==
 Allowed_C04(hs, pre, e) ==
     IF ~IsOp(e) THEN TRUE
     ELSE IF ~IsSync(hs)
-    THEN /\ IF HasPrelude(hs, e) THEN ExcessOf(hs, e.snap) <= GrowthOf(pre, e)
-            ELSE ExcessOf(hs, e.snap) <= ExcessOf(hs, pre)
+    THEN /\ IF HasPrelude(hs, e) THEN ExcessT(hs, e.snap) <= GrowthOf(pre, e)
+            ELSE ExcessT(hs, e.snap) <= ExcessT(hs, pre)
          /\ FreshOversize(hs, pre, e) => e.k \notin KeysIn(e.snap.res)
-    ELSE /\ (e.ev = "Sync" /\ Quiescent(e.snap)) => ExcessOf(hs, e.snap) <= hs.growth
+    ELSE /\ (e.ev = "Sync" /\ Quiescent(e.snap)) => ExcessT(hs, e.snap) <= hs.growth
          /\ (e.ev = "Sync" /\ hs.pend.on /\ hs.pend.fresh /\ hs.pend.now = e.now
                /\ Quiescent(e.snap) /\ hs.cfg.cap # None /\ hs.pend.w > hs.cfg.cap)
             => ~(hs.pend.k \in KeysIn(e.snap.res) /\ Ent(e.snap.res, hs.pend.k).v = hs.pend.v)
@@ -325,12 +330,12 @@ NT_C08(hs, pre, e) == IsOp(e) /\ HasF(e.snap, "dq") /\ e.snap.dq.ao.len > 0
 (* C10  counters equal what the cache physically holds                       *)
 
 ItW(snap) == SeqSum([i \in DOMAIN snap.it |->
-                      IF snap.it[i].k \in KeysIn(snap.res) THEN Ent(snap.res, snap.it[i].k).w ELSE 0])
+                      IF snap.it[i].k \in KeysIn(snap.res) THEN TW(Ent(snap.res, snap.it[i].k)) ELSE 0])
 
 Allowed_C10(hs, pre, e) ==
     (IsOp(e) /\ ~HasF(e.snap, "dropped") /\ (~IsSync(hs) \/ (e.ev = "Sync" /\ Quiescent(e.snap)))) =>
         /\ e.snap.ec = Len(e.snap.res)
-        /\ e.snap.ws = SumW(e.snap.res)
+        /\ e.snap.ws = SumTW(e.snap.res)
         /\ (hs.cfg.ttl = None /\ hs.cfg.tti = None /\ HasF(e.snap, "it")) =>
               (e.snap.ec = Len(e.snap.it) /\ e.snap.ws = ItW(e.snap))
 NT_C10(hs, pre, e) ==
@@ -585,7 +590,7 @@ HUpdate(P, hs, pre, e) ==
         growth1 == IF ~IsSync(hs) THEN 0
                    ELSE IF e.ev = "Sync" /\ Quiescent(e.snap) THEN 0
                    ELSE IF e.ev = "Insert" /\ e.k \in KeysIn(pre.res)
-                   THEN hs.growth + SatSub(e.w, Ent(pre.res, e.k).w)
+                   THEN hs.growth + SatSub(e.w, TW(Ent(pre.res, e.k)))
                    ELSE hs.growth
         changing == e.ev \in {"Insert", "Get", "Invalidate", "InvalidateAll"}
         needVis == "C07" \in P
